@@ -93,7 +93,9 @@ def completeElems (o : Oracle) (elem : Shape) (elemCtx : Bool) :
   | [], _, _ => (some [], {})
   | v :: rest, p, i =>
     let r :=
-      if !elemCtx && elem.nn && v.isNull then ((none : Option Out), eff [⟨p, illTypedScalarElem⟩])
+      if !elemCtx && elem.nn && v.isNull then
+        -- scalar elements share the field's path: one error for the list, however many elements are null
+        ((none : Option Out), if rest.any V.isNull then {} else eff [⟨p, elementIsNull⟩])
       else completeValue o elem v (if elemCtx then p ++ [.idx i] else p)
     let rs := completeElems o elem elemCtx rest p (i + 1)
     (match r.1, rs.1 with
